@@ -12,6 +12,7 @@ Copyright (c) 2008, 2009 Centre national de la recherche scientifique (CNRS)
 #include <climits>
 #include <cstdint>
 #include <optional>
+#include <mutex>
 #include <stack>
 #include <string>
 #include <vector>
@@ -77,6 +78,7 @@ class FastRational
     {
         std::stack<mpq_class> store; // uses deque as storage to avoid realloc
         std::stack<mpq_ptr, std::vector<mpq_ptr>> pool;
+        std::mutex mtx; // the pool is shared by all solver instances of the process
     public:
         mpq_ptr alloc();
         void release(mpq_ptr);
